@@ -1058,3 +1058,29 @@ func transFieldRW(p *Program, fn *ssa.Function, depth int) fieldRW {
 	visit(fn, depth)
 	return rw
 }
+
+// varargElems: for the `new([N]T)[:]` slice go/ssa builds for variadic calls
+// and slice literals, return the values stored into its elements.
+func varargElems(v ssa.Value) []ssa.Value {
+	sl, ok := v.(*ssa.Slice)
+	if !ok {
+		return nil
+	}
+	al, ok := sl.X.(*ssa.Alloc)
+	if !ok || al.Referrers() == nil {
+		return nil
+	}
+	var out []ssa.Value
+	for _, r := range *al.Referrers() {
+		ia, ok := r.(*ssa.IndexAddr)
+		if !ok || ia.Referrers() == nil {
+			continue
+		}
+		for _, r2 := range *ia.Referrers() {
+			if st, ok := r2.(*ssa.Store); ok && st.Addr == ia {
+				out = append(out, st.Val)
+			}
+		}
+	}
+	return out
+}
